@@ -10,6 +10,7 @@ import GocoinV.Proofs.C07KMain
 import GocoinV.Proofs.C07Roll
 import GocoinV.Proofs.C07Torn
 import GocoinV.Proofs.C07Lib
+import GocoinV.Proofs.C07Idx
 namespace GocoinV.Props.C07
 open GocoinV.Persist GocoinV.Proofs.C07
 
@@ -526,5 +527,97 @@ theorem lazy_snapshot_is_start_state (nmaps : Nat) (ops : List LOp) :
     the history "snapshot of block 2 starts, walks map 0; block 2 is undone; the writer finishes" renames a file to UTXO.db whose
     header names block 2 and announces 2 records but which holds the one record of block 1's set. -/
 theorem lazy_snapshot_needs_the_abort_in_undo : fileHeld 256 (lrun 256 false true lazyWitness) = false := by decide +kernel
+
+/-! ## round 4: the index file's positions and flag bytes, and what Chain.Close leaves in UTXO.db — REGENERATED FACTS again
+
+Model/PersistIdx.lean; the three facts `flagRewriteSource`, `invalidRecordAdvances`, `closeSaveGuard` are read from
+BlockDB.setBlockFlag, BlockDB.LoadBlockIndex and UnspentDB.Close by go/cmd/gen_c07 on every run. -/
+
+open GocoinV.Gen.C07Facts in
+/-- the three structural facts of round 4 are the ones the models were written for: setBlockFlag ORs the flag into the byte it
+    READ FROM THE FILE at the record's position; in LoadBlockIndex a record flagged invalid advances the position counter like
+    every other record; UnspentDB.Close writes UTXO.db whenever the set is dirty (nothing else is asked). -/
+theorem source_facts_round4_are_the_modelled_ones :
+    flagRewriteSource = .disk ∧ invalidRecordAdvances = true ∧ closeSaveGuard = .dirty := by decide
+
+open GocoinV.Persist.Idx GocoinV.Gen.C07Facts in
+/-- EVERY index record keeps what it was written with: for ANY directory `d` (any flag bytes, records flagged invalid anywhere)
+    and ANY history of block writes, flag rewrites (BLOCK_TRUSTED / BLOCK_INVALID, the only two calls) of records the node holds
+    and restarts (kill or clean shutdown, then LoadBlockIndex), with setBlockFlag and LoadBlockIndex AS WRITTEN IN THE SOURCE:
+    the index file is the old records followed by the appended ones, in order, each with its compression / length / data-file
+    bits and its data-file number unchanged - in particular every record still names the data file its block was written to -,
+    nothing is overwritten, and the node's append position is the end of the file. -/
+theorem idx_history_keeps_every_record (d : List IRec) (ops : List IOp) (hf : FlagsOK ops) :
+    (Idx.run d ops).disk.map core = (d ++ appended ops).map core ∧
+    (Idx.run d ops).disk.map dataFileOf = (d ++ appended ops).map dataFileOf ∧
+    (Idx.run d ops).pos = 136 * (Idx.run d ops).disk.length := by
+  have h1 : flagRewriteSource = .disk := by decide
+  have h2 : invalidRecordAdvances = true := by decide
+  have h := irun_inv d ops hf
+  unfold Idx.run
+  rw [h1, h2]
+  exact ⟨h.2, map_dataFileOf_of_core _ _ h.2, h.1⟩
+
+open GocoinV.Persist.Idx in
+example : FlagsOK [.append ⟨0x3c, 1⟩, .flag 0 1, .restart, .flag 1 2, .append ⟨0x3d, 2⟩] := by
+  intro i fl h
+  simp at h
+  rcases h with ⟨_, h⟩ | ⟨_, h⟩ <;> simp [h]
+
+open GocoinV.Persist.Idx GocoinV.Gen.C07Facts in
+/-- after a restart the node knows where every record is: LoadBlockIndex AS WRITTEN IN THE SOURCE, on ANY index file, returns the
+    end of the file as the append position and, for the records not flagged invalid (in file order), exactly their byte
+    positions as `ipos` (the position the next flag rewrite of that record writes to). -/
+theorem idx_load_positions_exact (d : List IRec) :
+    (iopen invalidRecordAdvances d).pos = 136 * d.length ∧
+    (iopen invalidRecordAdvances d).mems.map (·.ipos) = validPos d 0 := by
+  have h2 : invalidRecordAdvances = true := by decide
+  rw [h2]
+  exact ⟨(iopen_true d).1, (iopen_true d).2.1⟩
+
+open GocoinV.Persist.Idx in
+/-- … and it needs the advance in the invalid branch: if records flagged invalid do not advance the counter, then after a restart
+    on [invalid record, valid record] the node believes the valid record is at byte 0 and the end of the file at byte 136; the
+    next block written REPLACES the valid record (its block is lost from the index), and a flag rewrite of the valid record
+    lands in the invalid one. -/
+theorem idx_load_needs_the_advance :
+    (irun .disk false [⟨0x3e, 1⟩, ⟨0x3d, 1⟩] [.append ⟨0x3c, 2⟩]).disk = [⟨0x3e, 1⟩, ⟨0x3c, 2⟩] ∧
+    (irun .disk true [⟨0x3e, 1⟩, ⟨0x3d, 1⟩] [.append ⟨0x3c, 2⟩]).disk = [⟨0x3e, 1⟩, ⟨0x3d, 1⟩, ⟨0x3c, 2⟩] ∧
+    (irun .disk false [⟨0x3e, 1⟩, ⟨0x3c, 1⟩] [.flag 0 1]).disk = [⟨0x3f, 1⟩, ⟨0x3c, 1⟩] := by
+  decide
+
+open GocoinV.Persist.Idx in
+/-- … and it needs the byte READ BACK from the file: a flag byte rebuilt from the booleans the node keeps in memory (trusted,
+    compressed, snappy, length) forgets BLOCK_INDEX, so the record of a block stored in data file 1 names data file 0 after it
+    became trusted, while the rewrite as written keeps it. -/
+theorem idx_flag_rewrite_from_memory_loses_the_data_file :
+    (irun .memory true [⟨0x3c, 1⟩] [.flag 0 1]).disk.map dataFileOf = [0] ∧
+    (irun .disk true [⟨0x3c, 1⟩] [.flag 0 1]).disk.map dataFileOf = [1] := by
+  decide
+
+open GocoinV.Persist.Idx GocoinV.Gen.C07Facts in
+/-- "a clean shutdown followed by a restart reproduces the pre-shutdown state" at the level of WHICH BLOCK UTXO.db NAMES: with
+    UnspentDB.Close's guard AS WRITTEN IN THE SOURCE, for ANY history of commits, undos (operator undo, reorganisations), Idle
+    calls under any UTXO_SKIP_SAVE_BLOCKS and restarts, starting from a node whose clean set is the one on disk, every restart
+    comes up at exactly the block and height the node had when it was shut down. -/
+theorem close_restart_identity_model (s : CSt) (ops : List COp) (hs : Clean s) :
+    ∀ p ∈ restartPairs closeSaveGuard s ops, p.1 = p.2 := by
+  have h : closeSaveGuard = .dirty := by decide
+  rw [h]
+  exact restartPairs_dirty ops s hs
+
+open GocoinV.Persist.Idx in
+example : Clean ({ tip := 5, height := 5, dTip := 5, dHeight := 5 } : CSt) := by intro _; exact ⟨rfl, rfl⟩
+
+open GocoinV.Persist.Idx in
+/-- … and it needs the dirty flag ALONE: a guard that also asks whether the height in memory differs from the height on disk
+    writes nothing after "snapshot at block 5 (height 5); block 5 undone; another block 55 accepted at height 5" - the restart
+    comes up at block 5 although the node was shut down at block 55; the guard as written writes UTXO.db there. -/
+theorem close_guard_by_height_loses_a_same_height_switch :
+    restartPairs .dirtyAndHeightDiffers { tip := 5, height := 5, dTip := 5, dHeight := 5 } [.undo 4, .commit 55, .idle 0, .restart]
+      = [((55, 5), (5, 5))] ∧
+    restartPairs .dirty { tip := 5, height := 5, dTip := 5, dHeight := 5 } [.undo 4, .commit 55, .idle 0, .restart]
+      = [((55, 5), (55, 5))] := by
+  decide
 
 end GocoinV.Props.C07
